@@ -193,7 +193,7 @@ def replay(ctx, rp):
     ctx.count("replay")
     if "inputs" in rp:
         return claimed_outputs(ctx)
-    if rp.get("source_hex") and "undecodable" in str(rp.get("what", "")) + str(rp.get("class", "")) + "undecodable":
+    if rp.get("source_hex"):         # only the undecodable-line cases carry their source as bytes
         d, res = common.run_programs("c01r", {"replay": bytes.fromhex(rp["source_hex"])})
         if res["replay"].status == "ok":
             return ctx.fail("statements-lost", "a source with an undecodable line is reported ok", rp)
